@@ -190,6 +190,70 @@ def prefix_battery():
     return out
 
 
+def collate_non_name(t):
+    """a COLLATE whose second operand is not a plain name (the formatter prints that operand's Python repr)"""
+    if isinstance(t, dict):
+        c = t.get("collate")
+        if isinstance(c, list) and len(c) == 2 and not isinstance(c[1], str):
+            return True
+        return any(collate_non_name(v) for v in t.values())
+    if isinstance(t, list):
+        return any(collate_non_name(v) for v in t)
+    return False
+
+
+def is_query(t):
+    return isinstance(t, dict) and bool(set(t) & ({"select", "select_distinct", "from"} | SETOPS))
+
+
+def setop_nesting(t, under=None):
+    """a set operation with an operand that is itself a set operation or carries ORDER BY / LIMIT / OFFSET of its own,
+    or a set operation / tail wrapper directly under WITH: shapes the formatter writes without the parentheses"""
+    if isinstance(t, dict):
+        for k, v in t.items():
+            if k in SETOPS and isinstance(v, list):
+                for o in v:
+                    if isinstance(o, dict) and (set(o) & SETOPS or set(o) & {"orderby", "limit", "offset", "fetch"} or (set(o) == {"from"} | (set(o) & {"orderby", "limit", "offset"}))):
+                        return True
+        if "with" in t and ((set(t) & SETOPS) or ("select" not in t and "select_distinct" not in t and "from" in t)):
+            return True
+        if "from" in t and "select" not in t and "select_distinct" not in t and isinstance(t["from"], dict) and is_query(t["from"]) and not (set(t["from"]) & SETOPS):
+            pass
+        return any(setop_nesting(v) for v in t.values())
+    if isinstance(t, list):
+        return any(setop_nesting(v) for v in t)
+    return False
+
+
+def culprit(R, t):
+    """the smallest expression node of `t` whose own round trip (as a select item) is rejected, named by its operator and
+    the operators of its operands; None if every expression node survives on its own (a clause-level cause)"""
+    best = None
+
+    def nodes(x, depth=0):
+        if isinstance(x, dict):
+            for v in x.values():
+                yield from nodes(v, depth + 1)
+            if not is_query(x) and not (set(x) & {"value", "name", "literal"}) and len(x) >= 1:
+                yield depth, x
+        elif isinstance(x, list):
+            for v in x:
+                yield from nodes(v, depth + 1)
+
+    for depth, n in sorted(nodes(t), key=lambda p: -p[0])[:60]:
+        tree = {"select": {"value": n}}
+        f = R.format_raw(tree)
+        if f[0] != "ok":
+            continue
+        r2 = R.parse_raw(f[1])
+        if r2[0] != "ok":
+            ops = sorted(k for k in n if k not in ("kwargs",))
+            inner = sorted({k for v in n.values() for o in (v if isinstance(v, list) else [v]) if isinstance(o, dict) for k in o})
+            best = "%s(%s)" % ("+".join(ops)[:40], ",".join(inner)[:50])
+            break
+    return best
+
+
 def run(ctx, scale=1):
     rep = ctx.rep
     R = C.real()
@@ -219,7 +283,15 @@ def run(ctx, scale=1):
             rep.sample({"sql": st["sql"][:120], "format": f[1][:120]})
             if r2[0] != "ok":
                 import hashlib
-                key = "reparse-rejected:" + (hashlib.sha1(st["sql"].encode()).hexdigest()[:8] if st["origin"] == "corpus" else st["origin"])
+                if st["origin"] == "corpus":
+                    key = "reparse-rejected:" + hashlib.sha1(st["sql"].encode()).hexdigest()[:8]
+                elif collate_non_name(t):
+                    key = "collate:operand-is-not-a-name"
+                elif setop_nesting(t):
+                    key = "setop:nesting-or-tail"
+                else:
+                    # a generated statement: name the smallest expression that does not survive on its own
+                    key = "reparse-rejected:%s:%s" % (st["origin"], culprit(R, t) or "clause-level")
                 what = "format(parse(%r)) = %r does not parse (%s)" % (st["sql"][:160], f[1][:200], r2[1])
             else:
                 d = first_diff(t, r2[1])
